@@ -371,6 +371,14 @@ def size_attr_uses(ctx, ht, rule, roles):
         if len(stores) != 1:
             # every store must be the decoded slot itself
             extra = [s for s in stores if s[1] is not roles[attr][3]]
+
+            def zero_fallback(sn):
+                # `if self.<attr> == 0: self.<attr> = ..`: the value of a file that does not carry the field
+                q = parent(sn)
+                return isinstance(q, ast.If) and isinstance(q.test, ast.Compare) and len(q.test.ops) == 1 and \
+                    isinstance(q.test.ops[0], ast.Eq) and U(q.test.left) == 'self.' + attr and U(q.test.comparators[0]) == '0' \
+                    and sn in q.body
+            extra = [s for s in extra if not zero_fallback(s[1])]
             for (sf, sn, sv) in extra:
                 ctx.fail(rule, sf, sn, 'self.%s (the %s slot of the header) is re-assigned' % (attr, need), line=sn.lineno)
         ctx.ok(rule, roles[attr][2], 'self.%s <- headerbytes[%d:%d]' % (attr, roles[attr][1].lo, roles[attr][1].hi),
